@@ -15,7 +15,10 @@ An atomic step is the code between two suspending awaits:
                             `_async_on_discovered` up to `await self._event_handler(..)`; `suspend` says whether the
                             client's event handler suspends there (then `resume` is its return)
   resume                    the event handler returns: `_has_found_spa = True` when an address or identifier was given
-  poll                      one iteration of the `while self.age < TIMEOUT` loop; on exit: cancel `LOC:` tasks, close
+  poll                      one iteration of the `while self.age < TIMEOUT` loop; on exit: the `finally` block
+                            (cancel `LOC:` tasks, close the transport)
+  cancel                    `discover()` itself is cancelled while it sleeps in the loop: `CancelledError` runs the same
+                            `finally` block (since /repo 865a18b), then propagates
 
 `t` is the age (`time.monotonic() - self._started`).  Ghost fields (`arrived`, `popped`, `handled`) only record history.
 -/
@@ -119,6 +122,7 @@ deriving Repr, DecidableEq
 inductive Main where
   | running
   | returned (at_ : Nat)
+  | cancelled (at_ : Nat)   -- `discover()` was cancelled; its `finally` block ran at that age
 deriving Repr, DecidableEq
 
 structure DState where
@@ -147,6 +151,7 @@ inductive Input where
   | consume (suspend : Bool)
   | resume
   | poll
+  | cancel
 deriving Repr, DecidableEq
 
 def onDatagram (s : DState) (d : Datagram) : DState :=
@@ -185,17 +190,25 @@ def onResume (f : Filter) (s : DState) : DState :=
 def exitNow (c : DCfg) (s : DState) : Bool :=
   !(decide (s.t < c.timeout)) || (decide (c.initial < s.t) && !s.spas.isEmpty) || s.found
 
-/-- `cancel_key_tasks("LOC")`, `transport.close()` -/
-def finish (s : DState) : DState :=
-  { s with main := .returned s.t, closed := true, bcastAlive := false,
+/-- the `finally` block: `cancel_key_tasks("LOC")`, `transport.close()` -/
+def cleanup (s : DState) (m : Main) : DState :=
+  { s with main := m, closed := true, bcastAlive := false,
            consumer := match s.consumer with
              | .dead e => .dead e
              | _ => .cancelled }
 
+def finish (s : DState) : DState := cleanup s (.returned s.t)
+
 def onPoll (c : DCfg) (s : DState) : DState :=
   match s.main with
-  | .returned _ => s
   | .running => if exitNow c s then finish s else s
+  | _ => s
+
+/-- `CancelledError` delivered to `discover()` at its `await asyncio.sleep(..)` -/
+def onCancel (s : DState) : DState :=
+  match s.main with
+  | .running => cleanup s (.cancelled s.t)
+  | _ => s
 
 def step (c : DCfg) (f : Filter) (s : DState) : Input → DState
   | .datagram d => onDatagram s d
@@ -203,6 +216,7 @@ def step (c : DCfg) (f : Filter) (s : DState) : Input → DState
   | .consume b => onConsume f s b
   | .resume => onResume f s
   | .poll => onPoll c s
+  | .cancel => onCancel s
 
 def run (c : DCfg) (f : Filter) (s : DState) : List Input → DState
   | [] => s
